@@ -1,7 +1,8 @@
 (* C16 — The unsat-core cache never changes a verdict.
-   Statements only; every proof is `exact <lemma from Proofs/CacheProofs.v or CoreTextProofs.v>`.
+   Statements only; every proof is `exact <lemma from Proofs/CacheProofs.v, CacheTestProofs.v or CoreTextProofs.v>`.
    Gen/GenUnsatCore.v (check_unsat_cores, regex and template literals, from_result decision),
-   Gen/GenCoreAppend.v (callback append guard) and Gen/GenCoreIds.v (id = tracked name) are
+   Gen/GenCoreAppend.v (callback append guard), Gen/GenCoreIds.v (id = tracked name) and
+   Gen/GenCacheUsers.v (how the stuck-path / setUp-path / assertion consumers obtain their output) are
    regenerated from /repo/src/halmos/{solve,__main__,sevm}.py on every run.
 
    The statements are generic in the identifier type (any type with a correct equality test),
@@ -9,8 +10,8 @@
    is a hypothesis: it is a property of z3's AST-id allocator and CPython's reference counting
    that this model cannot express; the check monitors it on the real code (label: partial). *)
 From Coq Require Import ZArith List Bool.
-From HV Require Import Gen.GenUnsatCore Gen.GenCoreAppend Gen.GenCoreIds
-  Spec.CacheSpec Model.CacheModel Proofs.CacheProofs Proofs.CoreTextProofs.
+From HV Require Import Gen.GenUnsatCore Gen.GenCoreAppend Gen.GenCoreIds Gen.GenCacheUsers
+  Spec.CacheSpec Model.CacheModel Model.CacheTestModel Proofs.CacheProofs Proofs.CacheTestProofs Proofs.CoreTextProofs.
 Import ListNotations.
 Open Scope Z_scope.
 
@@ -221,6 +222,153 @@ Theorem C16_names :
   (gen_tracked_name_is_assertion_id = true /\ gen_id_is_z3_ast_id = true).
 Proof. exact (conj pattern_pinned (conj named_assertion_shape (conj dump_requests_core (conj eq_refl eq_refl)))). Qed.
 Print Assumptions C16_names.
+
+(* ------------------------------------------------------------------ WHO MAY BE ANSWERED FROM THE CACHE.
+   run_test has three consumers of the solver, and setup() one: an assertion violation goes to the
+   thread pool through solve_end_to_end (look-up, solver, refinement) and its output to the callback;
+   a stuck path and a candidate setUp path pose their query AS IS (solve_low_level, un-refined).
+   How each of them obtains its SolverOutput is Gen/GenCacheUsers.v (gen_stuck_solve,
+   gen_setup_solve, gen_assert_solve), regenerated from __main__.py on every run.
+   Two semantics: holds_a = truth under an arbitrary interpretation of the abstracted operations
+   (f_evm_bvmul_256 ...: the query as posed), holds_r = truth under the real operations (the
+   refined query); every real valuation is an abstract one.  H1 per file: a core of the
+   un-refined file is unsat as posed, a core of the refined file is unsat under holds_r only. *)
+
+(* the un-refined consumers see the solver's answer to their own query, whatever the cache holds *)
+Theorem C16_stuck_any_state :
+  forall (id : Type) (id_eqb : id -> id -> bool) (formula model : Type)
+         (low : bool -> query id formula -> reply id model) (refine_changes : query id formula -> bool)
+         (cache : bool) (cores : list (list id)) (q : query id formula),
+    strip id model (stuck_solve id id_eqb formula model low refine_changes cache cores q) =
+      strip id model (low false q) /\
+    strip id model (setup_solve id id_eqb formula model low refine_changes cache cores q) =
+      strip id model (low false q) /\
+    skips id id_eqb formula (@gen_stuck_solve bool) cache cores q = false.
+Proof. exact unrefined_any_state. Qed.
+Print Assumptions C16_stuck_any_state.
+
+(* SOUNDNESS for a whole test, any number and order of assertion / stuck / normal / reverted paths:
+   a consumer that is answered without a solver call has a query that is unsatisfiable in the
+   semantics IT asks about (assertion: after refinement; stuck: as posed) *)
+Theorem C16_test_sound :
+  forall (id : Type) (id_eqb : id -> id -> bool), (forall a b, id_eqb a b = true <-> a = b) ->
+  forall (formula model Va Vr : Type) (holds_a : Va -> formula -> Prop) (holds_r : Vr -> formula -> Prop),
+    (forall fs, sat formula Vr holds_r fs -> sat formula Va holds_a fs) ->
+  forall (low : bool -> query id formula -> reply id model) (refine_changes : query id formula -> bool)
+         (ps : list (tpath id formula)),
+    (forall q b c, In q (map snd ps) -> low b q = Unsat (Some c) -> c <> [] ->
+       if b then unsat formula Vr holds_r (select id id_eqb formula q c)
+       else unsat formula Va holds_a (select id id_eqb formula q c)) ->
+    (forall q1 q2, In q1 (map snd ps) -> In q2 (map snd ps) ->
+       forall i f1 f2, In (i, f1) q1 -> In (i, f2) q2 -> f1 = f2) ->
+    forall pre p post, ps = pre ++ p :: post ->
+      (match fst p with
+       | KAssert => skips id id_eqb formula (@gen_assert_solve bool) true
+                      (t_cores id model (test_run id id_eqb formula model low refine_changes true pre)) (snd p)
+       | KStuck => skips id id_eqb formula (@gen_stuck_solve bool) true
+                      (t_cores id model (test_run id id_eqb formula model low refine_changes true pre)) (snd p)
+       | _ => false
+       end) = true ->
+      match fst p with
+      | KAssert => unsat formula Vr holds_r (map snd (snd p))
+      | _ => unsat formula Va holds_a (map snd (snd p))
+      end.
+Proof. exact test_sound. Qed.
+Print Assumptions C16_test_sound.
+
+(* TRANSPARENCY for a whole test: with H3 on the assertion queries, the outputs (result, model,
+   validity), the number of stuck paths and of normal paths are the same with and without the
+   cache -- hence the same verdict *)
+Theorem C16_test_transparent :
+  forall (id : Type) (id_eqb : id -> id -> bool), (forall a b, id_eqb a b = true <-> a = b) ->
+  forall (formula model Va Vr : Type) (holds_a : Va -> formula -> Prop) (holds_r : Vr -> formula -> Prop),
+    (forall fs, sat formula Vr holds_r fs -> sat formula Va holds_a fs) ->
+  forall (low : bool -> query id formula -> reply id model) (refine_changes : query id formula -> bool)
+         (ps : list (tpath id formula)),
+    (forall q b c, In q (map snd ps) -> low b q = Unsat (Some c) -> c <> [] ->
+       if b then unsat formula Vr holds_r (select id id_eqb formula q c)
+       else unsat formula Va holds_a (select id id_eqb formula q c)) ->
+    (forall q1 q2, In q1 (map snd ps) -> In q2 (map snd ps) ->
+       forall i f1 f2, In (i, f1) q1 -> In (i, f2) q2 -> f1 = f2) ->
+    (forall q, In (KAssert, q) ps -> unsat formula Vr holds_r (map snd q) ->
+       strip id model (solve_end_to_end id id_eqb formula model low refine_changes false [] q) = Unsat None) ->
+    observe id model (test_run id id_eqb formula model low refine_changes true ps) =
+      observe id model (test_run id id_eqb formula model low refine_changes false ps) /\
+    test_verdict id id_eqb formula model low refine_changes true ps =
+      test_verdict id id_eqb formula model low refine_changes false ps.
+Proof. exact test_transparent_both. Qed.
+Print Assumptions C16_test_transparent.
+
+(* ... and under ANY completion order of the solver pool.  A schedule is any list of events
+   TPath p (the main loop takes path p: an assertion query is handed to the pool, a stuck path is
+   solved on the spot in whatever state the cache is), TStart j (a worker enters solve_end_to_end
+   for the query of path j: the look-up sees the cache as it is then), TCb j (its done-callback
+   runs: output recorded, core learnt); events that do not apply change nothing.  For every
+   schedule the outputs in callback order, the counters, the queries still pending and the verdict
+   once the pool has drained are the same with and without the cache. *)
+Theorem C16_test_transparent_any_schedule :
+  forall (id : Type) (id_eqb : id -> id -> bool), (forall a b, id_eqb a b = true <-> a = b) ->
+  forall (formula model Va Vr : Type) (holds_a : Va -> formula -> Prop) (holds_r : Vr -> formula -> Prop),
+    (forall fs, sat formula Vr holds_r fs -> sat formula Va holds_a fs) ->
+  forall (low : bool -> query id formula -> reply id model) (refine_changes : query id formula -> bool)
+         (evs : list (tevent id formula)),
+    let ps := sched_paths id formula evs in
+    (forall q b c, In q (map snd ps) -> low b q = Unsat (Some c) -> c <> [] ->
+       if b then unsat formula Vr holds_r (select id id_eqb formula q c)
+       else unsat formula Va holds_a (select id id_eqb formula q c)) ->
+    (forall q1 q2, In q1 (map snd ps) -> In q2 (map snd ps) ->
+       forall i f1 f2, In (i, f1) q1 -> In (i, f2) q2 -> f1 = f2) ->
+    (forall q, In (KAssert, q) ps -> unsat formula Vr holds_r (map snd q) ->
+       strip id model (solve_end_to_end id id_eqb formula model low refine_changes false [] q) = Unsat None) ->
+    observe id model (s_t id formula model (sched_run id id_eqb formula model low refine_changes true evs)) =
+      observe id model (s_t id formula model (sched_run id id_eqb formula model low refine_changes false evs)) /\
+    map fst (s_jobs id formula model (sched_run id id_eqb formula model low refine_changes true evs)) =
+      map fst (s_jobs id formula model (sched_run id id_eqb formula model low refine_changes false evs)) /\
+    sched_verdict id id_eqb formula model low refine_changes true evs =
+      sched_verdict id id_eqb formula model low refine_changes false evs.
+Proof. exact sched_transparent. Qed.
+Print Assumptions C16_test_transparent_any_schedule.
+
+(* non-vacuity: the stuck path taken while the assertion query is still in the pool, and after its
+   callback has stored the core the stuck path contains: [ERROR] stuck either way, cache or not *)
+Example C16_schedule_nonvacuous :
+  let early := [TPath (KAssert, rq1); TPath (KStuck, rq2); TStart 0%nat; TCb 0%nat; TPath (KNormal, [])] in
+  let late := [TPath (KAssert, rq1); TStart 0%nat; TCb 0%nat; TPath (KStuck, rq2); TPath (KNormal, [])] in
+  sched_verdict N N.eqb (N * bool) N rlow (fun _ => true) true early = Some VStuck /\
+  sched_verdict N N.eqb (N * bool) N rlow (fun _ => true) false early = Some VStuck /\
+  sched_verdict N N.eqb (N * bool) N rlow (fun _ => true) true late = Some VStuck /\
+  sched_verdict N N.eqb (N * bool) N rlow (fun _ => true) false late = Some VStuck /\
+  sched_verdict N N.eqb (N * bool) N rlow (fun _ => true) true [TPath (KAssert, rq1); TStart 0%nat] = None.
+Proof. vm_compute. repeat split. Qed.
+
+(* THE CACHE INVARIANT IS "UNSAT AFTER REFINEMENT", NOT "UNSAT AS POSED": with a truthful solver and
+   stable ids, after one assertion query whose refined file is unsat (core [1]) the cache contains a
+   core that the stuck path q2 contains, and q2 is satisfiable as posed (the solver says sat).  An
+   un-refined consumer that looked the cache up would drop a feasible stuck path: ERROR -> PASS.
+   (variable 0 = value of an abstracted operation, fixed to `true` by the real semantics) *)
+Theorem C16_refined_core_not_abstract_refuted :
+  let holds_a := fun (v : N -> bool) (f : N * bool) => v (fst f) = snd f in
+  let holds_r := fun (v : N -> bool) (f : N * bool) => v (fst f) = snd f /\ v 0%N = true in
+  exists (low : bool -> query N (N * bool) -> reply N N) (q1 q2 : query N (N * bool)),
+    (forall q b c, In q [q1; q2] -> low b q = Unsat (Some c) -> c <> [] ->
+       if b then unsat (N * bool) (N -> bool) holds_r (select N N.eqb (N * bool) q c)
+       else unsat (N * bool) (N -> bool) holds_a (select N N.eqb (N * bool) q c)) /\
+    (forall qa qb, In qa [q1; q2] -> In qb [q1; q2] ->
+       forall i f1 f2, In (i, f1) qa -> In (i, f2) qb -> f1 = f2) /\
+    check_unsat_cores N N.eqb (qids N (N * bool) q2)
+      (t_cores N N (test_run N N.eqb (N * bool) N low (fun _ => true) true [(KAssert, q1)])) = true /\
+    sat (N * bool) (N -> bool) holds_a (map snd q2) /\
+    is_unsat N N (low false q2) = false.
+Proof. exact (ex_intro _ rlow (ex_intro _ rq1 (ex_intro _ rq2 refined_core_not_abstract))). Qed.
+Print Assumptions C16_refined_core_not_abstract_refuted.
+
+(* non-vacuity of C16_test_transparent on that very test followed by a normal path: the real
+   run_test reports [ERROR] (stuck) with and without the cache, and the cache did learn the core *)
+Example C16_test_nonvacuous :
+  test_verdict N N.eqb (N * bool) N rlow (fun _ => true) true [(KAssert, rq1); (KStuck, rq2); (KNormal, [])] = VStuck /\
+  test_verdict N N.eqb (N * bool) N rlow (fun _ => true) false [(KAssert, rq1); (KStuck, rq2); (KNormal, [])] = VStuck /\
+  t_cores N N (test_run N N.eqb (N * bool) N rlow (fun _ => true) true [(KAssert, rq1); (KStuck, rq2); (KNormal, [])]) = [[1%N]].
+Proof. exact test_nonvacuous. Qed.
 
 (* non-vacuity: a stable three-query history with a truthful solver; the third query is
    answered from the cache (no core in its output) and all outputs agree with the uncached run *)
